@@ -7,7 +7,7 @@
     *every* admissible view, i.e. every permutation of the indexed samples that
     is sorted by duration ([C05_admissible_meaning]). *)
 From Coq Require Import Permutation Sorted.
-From DivanV Require Import Base.Res Model.Stats Proofs.Stats Proofs.StatsProv Proofs.StatsSb Proofs.StatsStore.
+From DivanV Require Import Base.Res Model.Stats Proofs.Stats Proofs.StatsProv Proofs.StatsSb Proofs.StatsStore Proofs.StatsAlloc.
 Local Open Scope N_scope.
 
 Theorem C05_admissible_meaning : forall durs sv,
@@ -271,3 +271,28 @@ Theorem C05_old_counter_after_input_counter_stale :
   = Ok (3%nat, {| ci_counts := [3023; 489; 286; 468]; ci_input := true |}).
 Proof. exact old_counter_after_input_counter_is_stale. Qed.
 Print Assumptions C05_old_counter_after_input_counter_stale.
+
+(** The allocation records of a run ([record_alloc_infos]: the gate
+    [if !tallies.is_empty() { alloc_info_by_sample.insert(index, ..) }] of the
+    recording loop).  [is_empty] means that all eight tally figures are 0; sample
+    [j] has a record iff one of its figures is not 0 (a timed section that only
+    frees or shrinks memory included), and the record is its own info. *)
+Theorem C05_alloc_is_empty_meaning : forall i,
+  tallies_is_empty i = true <->
+  forall op, t_count (ai_tally op i) = 0 /\ t_size (ai_tally op i) = 0.
+Proof. exact tallies_is_empty_spec. Qed.
+Print Assumptions C05_alloc_is_empty_meaning.
+
+Theorem C05_alloc_gate : forall infos j,
+  alist_find j (record_alloc_infos 0 infos []) =
+  match nth_error infos (N.to_nat j) with
+  | Some i => if tallies_is_empty i then None else Some i
+  | None => None
+  end.
+Proof. exact alloc_gate. Qed.
+Print Assumptions C05_alloc_gate.
+
+Theorem C05_alloc_records_model_sb : forall infos,
+  alloc_records_sb (map tallies_of_info infos) (record_alloc_infos 0 infos []) = true.
+Proof. exact alloc_records_model_sb. Qed.
+Print Assumptions C05_alloc_records_model_sb.
